@@ -514,15 +514,25 @@ def good_value(src, kind, small=False):
             kw["v"] = src.choice([0, 1, 2, 9])
         return ["kitem", kw]
     if kind in ("list_leaf",):
-        return ["tuple" if (not small and src.chance(0.12)) else "list",
-                [good_value(src, "leaf") for _ in range(src.randint(0, 2 if small else 3))]]
+        v = ["tuple" if (not small and src.chance(0.12)) else "list",
+             [good_value(src, "leaf") for _ in range(src.randint(0, 2 if small else 3))]]
+        if not small and v[1] and src.chance(0.15):
+            # the very same element object at several positions (a plain list does not mind)
+            v[1].insert(src.randint(0, len(v[1])), ["dup", 0])
+            v[1].append(["dup", 0]) if src.chance(0.4) else None
+            if v[1][0] == ["dup", 0]:
+                v[1][0], v[1][1] = v[1][1], v[1][0]
+        return v
     if kind == "list_optleaf":
         return ["list", [None if src.chance(0.2) else good_value(src, "leaf") for _ in range(src.randint(0, 2 if small else 3))]]
     if kind == "list_optint":
         return ["list", [src.choice([0, 1, 2, None, None, 3]) for _ in range(src.randint(0, 2 if small else 4))]]
     if kind == "dict_leaf":
         keys = src.sample(["a", "b", "c", ""], src.randint(0, 2 if small else 3))
-        return ["dict", [[k, good_value(src, "leaf")] for k in keys]]
+        v = ["dict", [[k, good_value(src, "leaf")] for k in keys]]
+        if not small and len(v[1]) >= 2 and src.chance(0.15):
+            v[1][-1][1] = ["dup", 0]  # the same element object under two keys
+        return v
     if kind in ("list_kitem", "klist", "kset"):
         keys = src.sample(["a", "b", "c", "d", ""], src.randint(0, 2 if small else 3))
         items = [["kitem", {"k": k, **({"v": src.choice([0, 1, 2])} if src.chance(0.5) else {})}] for k in keys]
@@ -689,12 +699,18 @@ def build_value(v, classes, faults=None):
         return v
     tag, payload = v[0], v[1] if len(v) > 1 else None
     b = lambda x: build_value(x, classes, faults)  # noqa: E731
-    if tag == "list":
-        return [b(x) for x in payload]
-    if tag == "tuple":
-        return tuple(b(x) for x in payload)
+    if tag in ("list", "tuple"):
+        out = []
+        for x in payload:
+            # ["dup", j]: the same object as element j (built before it)
+            out.append(out[x[1]] if (isinstance(x, list) and len(x) == 2 and x[0] == "dup") else b(x))
+        return out if tag == "list" else tuple(out)
     if tag == "dict":
-        return {b(k): b(x) for k, x in payload}
+        out, vals = {}, []
+        for k, x in payload:
+            vals.append(vals[x[1]] if (isinstance(x, list) and len(x) == 2 and x[0] == "dup") else b(x))
+            out[b(k)] = vals[-1]
+        return out
     if tag == "set":
         return {b(x) for x in payload}
     if tag == "float":
@@ -721,6 +737,15 @@ def build_value(v, classes, faults=None):
     if tag == "kset_any":
         _, _, KeyedSet, _, _ = _lib()
         return KeyedSet([b(x) for x in payload])
+    if tag in ("klist_fn", "kset_fn"):
+        # the container comes with a key function of the user's own (same keys as the default one: what differs is that
+        # it is a user callback, which may raise)
+        _, KeyedList, KeyedSet, _, _ = _lib()
+        keyfn = (lambda item: item.k)
+        if faults is not None:
+            keyfn = make_callback(faults, "keyfn", keyfn)
+        C = KeyedList if tag == "klist_fn" else KeyedSet
+        return C[classes["kitem"], str]([b(x) for x in payload], key=keyfn)
     if tag == "klist":
         _, KeyedList, _, _, _ = _lib()
         return KeyedList[classes["kitem"], str]([b(x) for x in payload])
